@@ -871,25 +871,35 @@ impl approx::UlpsEq for Iv {
     }
     fn ulps_eq(&self, o: &Iv, eps: Iv, max_ulps: u32) -> bool {
         // real-number reading of the f64 definition: |a-b| <= eps, or same
-        // sign and |a-b| <= max_ulps * 2^-52 * max(|a|,|b|) (ulp size bound)
+        // sign and |a-b| <= max_ulps ulps, where an ulp of x lies between
+        // 2^-53 |x| and 2^-52 |x| (that factor of two is the only grey zone)
         if self.tri_eq(o) == Tri::True {
             sig(65);
             return true;
         }
         let d = (*self - *o).abs_iv();
         let largest = Float::max(self.abs_iv(), o.abs_iv());
-        let ulp = largest * Iv::pt(f64::EPSILON * max_ulps as f64);
-        let bound = Float::max(eps, ulp);
-        // an ulp is between 2^-53 and 2^-52 relative: leave a factor-4 grey zone
-        let certainly = d.tri_le(&(bound * Iv::pt(0.25)));
-        let certainly_not = bound.tri_lt(&(d * Iv::pt(0.25)));
-        let t = if certainly == Tri::True {
-            Tri::True
-        } else if certainly_not == Tri::True {
-            Tri::False
-        } else {
-            Tri::Unknown
+        let t = match d.tri_le(&eps) {
+            Tri::True => Tri::True,
+            Tri::Unknown => Tri::Unknown,
+            Tri::False => {
+                let opposite = (self.hi < 0.0 && o.lo > 0.0) || (self.lo > 0.0 && o.hi < 0.0);
+                let maybe_opposite = !opposite && ((self.lo < 0.0 && o.hi > 0.0) || (self.hi > 0.0 && o.lo < 0.0));
+                let k = max_ulps as f64;
+                let lo_bound = largest * Iv::pt(k * f64::EPSILON * 0.5);
+                let hi_bound = largest * Iv::pt(k * f64::EPSILON);
+                if opposite {
+                    Tri::False
+                } else if d.tri_le(&lo_bound) == Tri::True && !maybe_opposite {
+                    Tri::True
+                } else if hi_bound.tri_lt(&d) == Tri::True {
+                    Tri::False
+                } else {
+                    Tri::Unknown
+                }
+            }
         };
+        let bound = Float::max(eps, largest * Iv::pt(f64::EPSILON * max_ulps as f64));
         decide(t, d.mid() <= bound.mid(), 64)
     }
 }
